@@ -185,7 +185,7 @@ def tiling_identities(ctx):
     cs = [c for c in own_calls(f.node) if (dotted(c.func) or '').endswith('_calculate_range_param')]
     cursors = [x.target.id for x in own_nodes(f.node) if isinstance(x, ast.AugAssign) and isinstance(x.target, ast.Name) and norm(x.value).startswith('len(')]
     cur = [v for c_ in cursors[:1] for st, v in q.local_defs(f, c_) if isinstance(st, ast.Assign) and isinstance(v, ast.AST)]
-    ok = len(cs) == 1 and bool(cur) and all(equal(v, f'{norm(cs[0].args[1])} * {norm(cs[0].args[0])}') for v in cur)
+    ok = len(cs) == 1 and bool(cur) and all(equal(v, f'{norm(q.argn(cs[0], "part_index", 1))} * {norm(q.argn(cs[0], "part_size", 0))}') for v in cur)
     ctx.ob(f, 'current_index = part_index * part_size (start of the requested range)', ok, f'found {[norm(v) for v in cur]} vs range({", ".join(norm(a) for a in cs[0].args) if cs else ""})')
     f = ctx.func('__init__.MultipartDownloader._download_file_as_future')
     npn = _np_names(f)
@@ -199,15 +199,15 @@ def tiling_identities(ctx):
     chunk = f.params[2]
     cs = [c for c in own_calls(f.node) if (dotted(c.func) or '').endswith('_get_upload_part_fileobj_with_full_size')]
     loopv = [norm(l.target) for l in own_nodes(f.node) if isinstance(l, ast.For) and 'range(1,' in norm(l.iter)]
-    sbe = q.resolve_local(f, kwarg(cs[0], 'start_byte')) if len(cs) == 1 and kwarg(cs[0], 'start_byte') is not None else None
+    sbe = q.resolve_local(f, q.argn(cs[0], 'start_byte')) if len(cs) == 1 and q.argn(cs[0], 'start_byte') is not None else None
     ok = sbe is not None and bool(loopv) and equal(sbe, f'{chunk} * ({loopv[0]} - 1)')
     ctx.ob(f, f'start_byte = {chunk} * (part_number - 1)', ok, f'found {norm(sbe)}')
     ok = len(cs) == 1 and sbe is not None and norm(kwarg(cs[0], 'part_size')) == chunk
     ctx.ob(f, f'part handle opened at start_byte with part_size={chunk}', ok, 'the part body must start at its own offset')
     cr = [c for c in own_calls(f.node) if (dotted(c.func) or '').endswith('open_file_chunk_reader_from_fileobj')]
-    ctx.ob(f, f'chunk reader limited to chunk_size={chunk}', len(cr) == 1 and norm(kwarg(cr[0], 'chunk_size')) == chunk, 'each part body must be limited to the part size')
+    ctx.ob(f, f'chunk reader limited to chunk_size={chunk}', len(cr) == 1 and norm(q.argn(cr[0], 'chunk_size', 1)) == chunk, 'each part body must be limited to the part size')
     npc = [c for c in own_calls(f.node) if (dotted(c.func) or '').endswith('_get_num_parts')]
-    ctx.ob(f, f'num_parts = _get_num_parts(transfer_future, {chunk})', len(npc) == 1 and norm(npc[0].args[1]) == chunk, 'the part count must use the same chunk size as the offsets')
+    ctx.ob(f, f'num_parts = _get_num_parts(transfer_future, {chunk})', len(npc) == 1 and norm(q.argn(npc[0], 'part_size', 1)) == chunk, 'the part count must use the same chunk size as the offsets')
     rng = [l for l in own_nodes(f.node) if isinstance(l, ast.For) and 'range(1,' in norm(l.iter)]
     ok = len(rng) == 1 and len(npc) == 1 and isinstance(npc[0]._parent, ast.Assign) and norm(rng[0].iter) == f'range(1, {norm(npc[0]._parent.targets[0])} + 1)'
     ctx.ob(f, 'for part_number in range(1, num_parts + 1)', ok, 'every part 1..n must be produced')
@@ -216,14 +216,14 @@ def tiling_identities(ctx):
     ctx.ob(g, 'int(math.ceil(size / float(part_size)))', len(rets) == 1 and _num_parts_expr_ok(rets[0].value, 'transfer_future.meta.size', 'part_size'), f'{norm(rets[0].value) if rets else None}')
     d = ctx.func('upload.UploadFilenameInputManager._get_deferred_open_file')
     cs = [c for c in own_calls(d.node) if norm(c.func) == 'DeferredOpenFile']
-    ctx.ob(d, 'DeferredOpenFile(fileobj, start_byte, ...)', len(cs) == 1 and len(cs[0].args) >= 2 and norm(cs[0].args[1]) == 'start_byte', 'the handle must seek to the part offset when opened')
+    ctx.ob(d, 'DeferredOpenFile(fileobj, start_byte, ...)', len(cs) == 1 and norm(q.argn(cs[0], 'start_byte', 1)) == 'start_byte', 'the handle must seek to the part offset when opened')
     o = ctx.func('utils.DeferredOpenFile._open_if_needed')
     sk = [c for c in own_calls(o.node) if (dotted(c.func) or '') == 'self._fileobj.seek']
     ctx.ob(o, 'seek(self._start_byte) when opening', len(sk) == 1 and norm(sk[0].args[0]) == 'self._start_byte', 'the deferred handle must start at its start byte')
     # legacy upload
     f = ctx.func('__init__.MultipartUploader._upload_one_part')
     cs = [c for c, r in q.calls_in(ctx, f) if r.kind == 'package' and any(t.name == 'open_file_chunk_reader' for t in r.targets)]
-    ok = len(cs) == 1 and len(cs[0].args) >= 3 and equal(cs[0].args[1], 'part_size * (part_number - 1)') and norm(cs[0].args[2]) == 'part_size'
+    ok = len(cs) == 1 and q.argn(cs[0], 'start_byte', 1) is not None and equal(q.argn(cs[0], 'start_byte', 1), 'part_size * (part_number - 1)') and norm(q.argn(cs[0], 'size', 2)) == 'part_size'
     ctx.ob(f, 'open_chunk_reader(filename, part_size * (part_number - 1), part_size, ...)', ok, 'legacy part k must cover [c(k-1), ck)')
     f = ctx.func('__init__.MultipartUploader._upload_parts')
     npn = _np_names(f)
@@ -243,8 +243,11 @@ def tiling_identities(ctx):
     ctx.ob(f, 'for part_number in range(1, num_parts + 1)', len(loopv) == 1, 'every part 1..n must be copied')
     for fn in ('calculate_range_parameter', '_get_transfer_size'):
         cs = [c for c in own_calls(f.node) if (dotted(c.func) or '').split('.')[-1] == fn]
-        ok = len(cs) == 1 and bool(loopv) and bool(npn) and [norm(a) for a in cs[0].args] == [psn, f'{loopv[0]} - 1', npn[0], 'transfer_future.meta.size']
-        ctx.ob(f, f'{fn}(part_size, part_number - 1, num_parts, size)', ok, f'found {[norm(a) for a in cs[0].args] if cs else None}')
+        names = {'calculate_range_parameter': ('part_size', 'part_index', 'num_parts', 'total_size'),
+                 '_get_transfer_size': ('part_size', 'part_index', 'num_parts', 'total_transfer_size')}[fn]
+        got = [norm(q.argn(cs[0], nm, k)) for k, nm in enumerate(names)] if len(cs) == 1 else None
+        ok = len(cs) == 1 and bool(loopv) and bool(npn) and got == [psn, f'{loopv[0]} - 1', npn[0], 'transfer_future.meta.size']
+        ctx.ob(f, f'{fn}(part_size, part_number - 1, num_parts, size)', ok, f'found {got}')
     g = ctx.func('copies.CopySubmissionTask._get_transfer_size')
     ps, pi, n, T = g.bound_params()
     rets = [x for x in own_nodes(g.node) if isinstance(x, ast.Return)]
@@ -258,7 +261,7 @@ def _check_ranged_loop(ctx, f, range_fn, offset_key, size_txt):
     cs = [c for c in own_calls(f.node) if (dotted(c.func) or '').split('.')[-1] == range_fn]
     ctx.need(cs, f'{f.qualname} no longer calls {range_fn}')
     c = cs[0]
-    p, i, n = [norm(a) for a in c.args[:3]]
+    p, i, n = [norm(q.argn(c, nm, k)) for k, nm in enumerate(('part_size', 'part_index', 'num_parts'))]
     loop = q.in_loop(c)
     ok = isinstance(loop, ast.For) and norm(loop.iter) == f'range({n})' and norm(loop.target) == i
     ctx.ob(f, f'for {i} in range({n}): {range_fn}({p}, {i}, {n})', ok, 'every part index 0..n-1 must be requested exactly once')
@@ -346,17 +349,17 @@ def limits_are_s3s_and_applied(ctx):
                           ('copies.CopySubmissionTask._submit_multipart_request', ['calculate_range_parameter', '_get_transfer_size'])):
         f = ctx.func(qn)
         adj = [c for c in own_calls(f.node) if (dotted(c.func) or '').endswith('adjust_chunksize')]
-        ok = len(adj) == 1 and len(adj[0].args) == 2
+        ok = len(adj) == 1 and q.argn(adj[0], 'current_chunksize', 0) is not None and q.argn(adj[0], 'file_size', 1) is not None
         if ok:
-            a0 = adj[0].args[0]
+            a0 = q.argn(adj[0], 'current_chunksize', 0)
             a0defs = [norm(v) for _, v in q.local_defs(f, a0.id) if isinstance(v, ast.AST)] if isinstance(a0, ast.Name) else [norm(a0)]
-            ok = 'config.multipart_chunksize' in a0defs and q.ntext(f, adj[0].args[1]) == 'transfer_future.meta.size'
+            ok = 'config.multipart_chunksize' in a0defs and q.ntext(f, q.argn(adj[0], 'file_size', 1)) == 'transfer_future.meta.size'
         ctx.ob(f, 'adjust_chunksize(config.multipart_chunksize, size)', ok, 'the configured chunk size and the object size must be what gets adjusted')
         rv = adj[0]._parent.targets[0].id if adj and isinstance(adj[0]._parent, ast.Assign) else None
         gf = ctx.cfg(f)
         for cn in consumers:
             for c in [c for c in own_calls(f.node) if (dotted(c.func) or '').split('.')[-1] == cn]:
-                uses = any(isinstance(a, ast.Name) and a.id == rv for a in c.args)
+                uses = any(isinstance(a, ast.Name) and a.id == rv for a in list(c.args) + [k.value for k in c.keywords])
                 after = bool(adj) and gf.all_dominate(gf.nodes_of(adj[0]), gf.nodes_of(c), gf.NORMAL)
                 ctx.ob(f, f'{cn}(...) uses the adjusted chunk size ({rv})', uses and after, 'parts must be planned with the adjusted size, otherwise > 10 000 parts or parts < 5 MiB are produced')
         if 'copies' in qn:
